@@ -45,6 +45,10 @@ def fam_list():
     F.append(("meta_expand", ctl.cv_d1(extra="  expandBoundaries on\n") + "metadynamics {\n colvars d1\n hillWeight 0.5\n newHillFrequency 2\n hillWidth 2.0\n}\n", "off"))
     F.append(("meta_2d", d1 + d2 + "metadynamics {\n colvars d1 d2\n hillWeight 0.5\n newHillFrequency 3\n hillWidth 2.0\n}\n", "off"))
     F.append(("opes", d1 + "opes_metad {\n colvars d1\n newHillFrequency 3\n barrier 5.0\n gaussianSigma 0.3\n}\n", "off"))
+    # wide kernels deposited often: most deposits are merged into an existing kernel (compression), so the kernel
+    # list changes without changing its length
+    F.append(("opes_merge", d1 + "opes_metad {\n colvars d1\n newHillFrequency 1\n barrier 5.0\n gaussianSigma 1.5\n}\n", "off"))
+    F.append(("opes_merge2d", d1 + d2 + "opes_metad {\n colvars d1 d2\n newHillFrequency 2\n barrier 8.0\n gaussianSigma 2.0 2.5\n}\n", "off"))
     F.append(("abmd", d1 + "abmd {\n colvars d1\n forceConstant 5.0\n stoppingValue 7.5\n}\n", "off"))
     F.append(("histogram", d1 + "histogram {\n colvars d1\n}\n", "off"))
     F.append(("histogram_2d", d1 + d2 + "histogram {\n colvars d1 d2\n}\n", "off"))
@@ -308,4 +312,4 @@ def run(tier, replay):
     c.exhaustive = (tier != "quick")
     c.extra["T"] = T
     nf = len(c.extra.get("families_covered", []))
-    return c.finish(nf >= 20 and len(c.distinct) >= 300, "%d families, %d distinct (family, format, K)" % (nf, len(c.distinct)))
+    return c.finish(nf >= 22 and len(c.distinct) >= 300, "%d families, %d distinct (family, format, K)" % (nf, len(c.distinct)))
